@@ -456,6 +456,8 @@ where
                 // indicate that the message successfully authenticated
                 // with that key.
                 context.tsig_key = Some(tsig_rr.key_name().to_owned());
+            } else {
+                peek_rr.skip();
             }
         }
 
